@@ -254,6 +254,57 @@ def r20_6(ctx):
     ctx.ob("R20.6", "rebase:re-renders", bool(sy), r.loc(), "rebase re-renders through Error::syntax over the given text")
 
 
+def r20_7(ctx):
+    """an error of a nested parse over a span of the input is positioned in the input: wherever the parser re-parses a span
+    taken with slice_unchecked(start, end) through a from_slice-like entry point, the error edge passes a call that
+    receives the whole input text (a re-rendering at start + offset) before it is returned"""
+    from ..analysis import result_edges
+    prog = ctx.prog()
+    n = 0
+    for f in prog.fns.values():
+        if f.crate != "sonic_rs" or f.kind == "Closure":
+            continue
+        for b, t in f.calls():
+            if not callee_is(t, "from_slice", "from_str", "from_slice_unchecked") or "sonic_rs::serde::de" not in t["callee"]:
+                continue
+            a = op_local(t["args"][0]) if t["args"] else None
+            sl, leaves = backward_slice(f, [a]) if a is not None else (set(), [])
+            if not any(lf[0] == "call" and callee_is(lf[2], "slice_unchecked") for lf in leaves):
+                continue
+            n += 1
+            res = t["dest"][0]
+            tb = [(bb, tt) for bb, tt in f.calls() if callee_is(tt, "branch") and op_local(tt["args"][0]) == res]
+            re_ = result_edges(f, tb[0][1]["dest"][0]) if tb else result_edges(f, res)
+            mapped = False
+            # the mapping may sit on the error edge or be applied to the Result before `?` (map_err with a closure)
+            cands = []
+            if re_ is not None:
+                cands += [(bb, tt) for bb, tt in f.calls() if bb in (f.reachable_from(re_[1]) | {re_[1]})]
+            cands += [(bb, tt) for bb, tt in f.calls() if callee_is(tt, "map_err") and tt["args"] and op_local(tt["args"][0]) is not None and res in (backward_slice(f, [op_local(tt["args"][0])])[0] | {op_local(tt["args"][0])})]
+            for bb, tt in cands:
+                if tt["callee"].rsplit("::", 1)[-1] in ("from_residual", "branch", "from", "into"):
+                    continue
+                bodies = [f] + [prog.fns[x] for x in (tt.get("arg_adts") or []) if x in prog.fns]
+                for g in bodies:
+                    for cb, ct in g.calls():
+                        if g is f and (cb, ct) != (bb, tt):
+                            continue
+                        for a2 in ct["args"]:
+                            la = op_local(a2)
+                            if la is None:
+                                continue
+                            dsl, dleaves = backward_slice(g, [la], through_calls=False)
+                            if any(x[0] == "call" and callee_is(x[2], "as_u8_slice") for x in dleaves) or (g is not f and any(x[0] == "place" for x in dleaves) and callee_is(ct, "rebase_sub", "syntax")):
+                                mapped = True
+            if re_ is None and not mapped:
+                ctx.ob("R20.7", f"nested-parse:{short(f.id)}", False, f.loc(t["ln"]), "cannot find the error edge of the nested parse (fail closed)")
+                continue
+            ctx.ob("R20.7", f"nested-parse:{short(f.id)}", mapped, f.loc(t["ln"]),
+                   "an error of the nested parse over a span is re-rendered against the whole input" if mapped else
+                   "an error of the nested parse over a span of the input is returned as is: its offset, line and column are those inside the span, not in the input")
+    ctx.ob("R20.7", "nested-parses-found", True, "", f"{n} nested parse(s) over a span of the reader's text", nontrivial=False)
+
+
 def r20_s(ctx):
     """error offsets stay inside the input: the over-reading reader's length excludes exactly the padding and a parse cannot end in it (shared with C01)"""
     from . import c01
@@ -262,4 +313,4 @@ def r20_s(ctx):
     ctx.include(c01.r01_11, 'R20.S')  # positions measured over a repaired (lossy) text are mapped back, for results and for errors
 
 
-RULES = [("R20.1", r20_1), ("R20.2", r20_2), ("R20.3", r20_3), ("R20.4", r20_4), ("R20.5", r20_5), ("R20.6", r20_6), ("R20.S", r20_s)]
+RULES = [("R20.1", r20_1), ("R20.2", r20_2), ("R20.3", r20_3), ("R20.4", r20_4), ("R20.5", r20_5), ("R20.6", r20_6), ("R20.7", r20_7), ("R20.S", r20_s)]
